@@ -116,6 +116,8 @@ class DefinitionsReader(Reader):
                 # nothing is kept for an import that brought in a schema
                 if imp.imported is not None:
                     imp.imported.options = self.options
+            # the (wrapped|bare) flags depend on the 'unwrap' option
+            wsdl.set_wrapped()
         return wsdl
 
     def __cache(self):
